@@ -217,14 +217,15 @@ Print Assumptions C19_K_query_sound.
 Theorem C19_K_equal_sound :
   forall a b rab rba,
     check_case (CEqual a b rab rba) = [] ->
-    rab <> RPanic /\ rba <> RPanic /\ rab = rba /\ (rab = ROk true -> tv_equiv a b).
+    rab <> RPanic /\ rba <> RPanic /\ rab <> RDiff /\ rba <> RDiff /\
+    rab = rba /\ (rab = ROk true -> tv_equiv a b).
 Proof. exact K_equal_sound. Qed.
 Print Assumptions C19_K_equal_sound.
 
 Theorem C19_K_fromto_sound :
   forall x jvalid r1 r2,
     check_case (CFromTo x jvalid r1 r2) = [] ->
-    r1 <> RPanic /\ r2 <> RPanic /\
+    r1 <> RPanic /\ r2 <> RPanic /\ r1 <> RDiff /\ r2 <> RDiff /\
     (forall t, r1 = ROk t -> ores_eqb gs_eqb r2 (ROk (widen x)) = true) /\
     (r1 = RErr <-> C19Check.supported x = false).
 Proof. exact K_fromto_sound. Qed.
